@@ -3,5 +3,6 @@ CONSTANTS
   MaxTok = 3
   Mode = "nowiki"
   Depth = 0
+  DeepAll = FALSE
 INVARIANT GenInv
 CHECK_DEADLOCK FALSE
